@@ -82,7 +82,7 @@ def explore(chk):
         case = {"writer": wname, "captions": [{"nodes": [list(n) for n in nodes], "lines": lines} for (_, _, nodes, lines) in caps]}
         nontriv = any((META & set(l)) for c in caps for l in c[3]) or any(
             c[2][k][0] == "B" and (k == 0 or k == len(c[2]) - 1 or c[2][k - 1][0] == "B") for c in caps for k in range(len(c[2])))
-        w = W()
+        w = core.POOL.get(W)
         try:
             doc = w.write(cs)
         except Exception as e:
